@@ -290,6 +290,164 @@ theorem specB_sound (gap thr : Rat) (inp out : List Row) (h : specB gap thr inp 
     rw [h1, h2]
     exact ⟨[], List.Perm.refl _, by simp [SortedByOffset], [], List.Perm.refl _, colRule_applyRule gap thr []⟩
 
+/-! ### … and complete -/
+
+theorem sortedB_complete (l : List Row) (h : SortedByOffset l) : sortedB l = true := by
+  induction l with
+  | nil => rfl
+  | cons a t ih =>
+    cases t with
+    | nil => rfl
+    | cons b t' =>
+      have hc := List.pairwise_cons.mp h
+      simp only [sortedB, Bool.and_eq_true, decide_eq_true_eq]
+      exact ⟨hc.1 b (by simp), ih hc.2⟩
+
+theorem expected_congr_key (gap thr : Rat) (a b : Row) (n : Rat) (h : key a = key b) :
+    expected gap thr a n = expected gap thr b n := by
+  cases a with
+  | mk ao ac al =>
+    cases b with
+    | mk bo bc bl =>
+      simp only [key, Prod.mk.injEq] at h
+      obtain ⟨h1, h2⟩ := h
+      subst h1 h2
+      simp [expected]
+
+/-- the rule looks at a note's time and column only, and at the whole note only for the last one -/
+theorem applyRule_append_congr (gap thr : Rat) (x : Row) :
+    ∀ (A C : List Row), A.map key = C.map key → applyRule gap thr (A ++ [x]) = applyRule gap thr (C ++ [x]) := by
+  intro A
+  induction A with
+  | nil =>
+    intro C h
+    cases C with
+    | nil => rfl
+    | cons c C' => simp at h
+  | cons a A' ih =>
+    intro C h
+    cases C with
+    | nil => simp at h
+    | cons c C' =>
+      simp only [List.map_cons, List.cons.injEq] at h
+      obtain ⟨hk, ht⟩ := h
+      cases A' with
+      | nil =>
+        cases C' with
+        | nil =>
+          simp only [List.cons_append, List.nil_append, applyRule]
+          rw [expected_congr_key gap thr a c _ hk]
+        | cons c2 C'' => simp at ht
+      | cons a2 A'' =>
+        cases C' with
+        | nil => simp at ht
+        | cons c2 C'' =>
+          have hk2 : key a2 = key c2 := by
+            simp only [List.map_cons, List.cons.injEq] at ht
+            exact ht.1
+          have ho : a2.offset = c2.offset := by
+            have := congrArg Prod.fst hk2
+            simpa [key] using this
+          have := ih (c2 :: C'') ht
+          simp only [List.cons_append, applyRule] at this ⊢
+          rw [this, ho, expected_congr_key gap thr a c _ hk]
+
+theorem sorted_keys_eq (c : Int) (A C : List Row) (hA : ∀ r ∈ A, r.column = c) (hC : ∀ r ∈ C, r.column = c)
+    (sA : SortedByOffset A) (sC : SortedByOffset C) (hp : A.Perm C) : A.map key = C.map key := by
+  apply List.Perm.eq_of_pairwise (le := fun (a b : Rat × Int) => a.1 ≤ b.1)
+  · intro a b ha hb h1 h2
+    obtain ⟨ra, hra, rfl⟩ := List.mem_map.mp ha
+    obtain ⟨rb, hrb, rfl⟩ := List.mem_map.mp hb
+    simp only [key] at h1 h2 ⊢
+    rw [hA ra hra, hC rb hrb, Rat.le_antisymm h1 h2]
+  · exact List.pairwise_map.mpr sA
+  · exact List.pairwise_map.mpr sC
+  · exact hp.map key
+
+/-- completeness of the column check: any processing order allowed by the statement is matched by a candidate -/
+theorem colSpecB_complete (gap thr : Rat) (c : Int) (I O : List Row) (hI : ∀ r ∈ I, r.column = c)
+    (h : ∃ col, col.Perm I ∧ SortedByOffset col ∧ ∃ o, o.Perm O ∧ ColRule gap thr col o) :
+    colSpecB gap thr I O = true := by
+  obtain ⟨col, h1, h2, o, h3, h4⟩ := h
+  have ho := colRule_unique gap thr col o h4
+  subst ho
+  unfold colSpecB
+  split
+  · rename_i hI'
+    have : I = [] := by simpa using hI'
+    subst this
+    have : col = [] := List.perm_nil.mp h1
+    subst this
+    have : O = [] := by
+      have := h3.symm
+      simpa [applyRule] using this
+    simp [this]
+  · rename_i hI'
+    have hIne : I ≠ [] := by simpa using hI'
+    have hcolne : col ≠ [] := by
+      intro he; subst he; exact hIne (List.perm_nil.mp h1.symm)
+    -- the last note of the given processing order
+    let x := col.getLast hcolne
+    have hsplit : col.dropLast ++ [x] = col := List.dropLast_concat_getLast hcolne
+    let s := sortByOffset I
+    have hsI : s.Perm I := sortByOffset_perm I
+    have hscol : s.Perm col := hsI.trans h1.symm
+    have hsne : s ≠ [] := by
+      intro he
+      have : col = [] := List.perm_nil.mp (he ▸ hscol).symm
+      exact hcolne this
+    have hss : SortedByOffset s := sortByOffset_sorted I
+    have hxs : x ∈ s := hscol.mem_iff.mpr (List.getLast_mem hcolne)
+    have hlast_mem : s.getLast hsne ∈ col := hscol.mem_iff.mp (List.getLast_mem hsne)
+    have hmax : x.offset = (s.getLast hsne).offset :=
+      Rat.le_antisymm (sorted_le_getLast hss hsne x hxs) (sorted_le_getLast h2 hcolne _ hlast_mem)
+    have hcand : s.erase x ++ [x] ∈ candidates I := by
+      unfold candidates
+      simp only
+      rw [List.getLast?_eq_some_getLast hsne]
+      simp only
+      refine List.mem_map.mpr ⟨x, List.mem_filter.mpr ⟨hxs, by simpa using hmax⟩, rfl⟩
+    have hperm_s : (s.erase x ++ [x]).Perm s :=
+      (List.perm_append_comm).trans (List.perm_cons_erase hxs).symm
+    have hsorted : SortedByOffset (s.erase x ++ [x]) := by
+      refine List.pairwise_append.mpr ⟨List.Pairwise.sublist List.erase_sublist hss, by simp, ?_⟩
+      intro a ha b hb
+      have hb' : b = x := by simpa using hb
+      subst hb'
+      rw [hmax]
+      exact sorted_le_getLast hss hsne a (List.erase_sublist.subset ha)
+    have hAC : (s.erase x).Perm col.dropLast := by
+      have : (s.erase x ++ [x]).Perm (col.dropLast ++ [x]) := by rw [hsplit]; exact hperm_s.trans hscol
+      exact (List.perm_append_right_iff [x]).mp this
+    have hcolc : ∀ r ∈ col, r.column = c := fun r hr => hI r (h1.mem_iff.mp hr)
+    have hkeys : (s.erase x).map key = col.dropLast.map key := by
+      apply sorted_keys_eq c
+      · intro r hr; exact hI r (hsI.mem_iff.mp (List.erase_sublist.subset hr))
+      · intro r hr; exact hcolc r (List.dropLast_subset col hr)
+      · exact List.Pairwise.sublist List.erase_sublist hss
+      · exact List.Pairwise.sublist (List.dropLast_sublist col) h2
+      · exact hAC
+    have happly : applyRule gap thr (s.erase x ++ [x]) = applyRule gap thr col := by
+      rw [← hsplit]
+      exact applyRule_append_congr gap thr x _ _ hkeys
+    refine List.any_eq_true.mpr ⟨s.erase x ++ [x], hcand, ?_⟩
+    simp only [Bool.and_eq_true, List.isPerm_iff]
+    exact ⟨⟨sortedB_complete _ hsorted, hperm_s.trans hsI⟩, happly ▸ h3⟩
+
+/-- **`specB` is complete**: every output the statement allows is accepted (no false alarm from the check) -/
+theorem specB_complete (gap thr : Rat) (inp out : List Row) (h : Spec gap thr inp out) :
+    specB gap thr inp out = true := by
+  unfold specB
+  rw [List.all_eq_true]
+  intro c _
+  refine colSpecB_complete gap thr c (inColumn c inp) (inColumn c out) ?_ (h c)
+  intro r hr
+  simpa [inColumn] using (List.mem_filter.mp hr).2
+
+/-- the executable check evaluated on the implementation's output IS the statement -/
+theorem specB_iff (gap thr : Rat) (inp out : List Row) : specB gap thr inp out = true ↔ Spec gap thr inp out :=
+  ⟨specB_sound gap thr inp out, specB_complete gap thr inp out⟩
+
 /-! ### the chart-level statement -/
 
 theorem fromDict_ok (sc : Bool) (rows : List Row) (h : sc = true ∨ rows = []) : fromDict sc rows = .ok rows := by
